@@ -496,7 +496,7 @@ func c32ExecRestore(in *c32Restore) vh.Out {
 
 func c32GenName(r *vh.Rand) string {
 	pre := r.Pick([]string{"1", "5", "12", "", "/1", "../1", "a/1", "/etc/passwd", "x"})
-	rest := r.Pick([]string{"foo_1.0_3.zip", "foo.zip", "..", "../x", "d/x", "d/..", "d/../..", "d/../../x", "/etc/passwd", "/../../x",
+	rest := r.Pick([]string{"foo_1.0_3.zip", "foo.zip", "..", "../x", "d/x", "d/..", "d/../..", "d/../../x", "/etc/passwd", "/../../x", "d/../../x", "d/../../../x", "d/../../state.json",
 		"a/b", "", ".", "./x", "d//x", "d/./x", "..zip", "...", ".../x", "d/..x", "d/x..", "x/", "importing", "old.zip", "d", "d/", "..\\x"})
 	switch r.Intn(8) {
 	case 0:
@@ -590,7 +590,8 @@ func c32Gen(r *vh.Rand, tier string, n int) []c32In {
 	}
 	var ins []c32In
 	// fixed import corner cases
-	for _, nm := range []string{"1_foo_1.0_3.zip", "1_../x", "1_d/..", "1_..", "1_d/../..", "/etc/passwd", "/etc_/passwd", "1_/etc/passwd", "1_d/x", "1_nodir/x", "noscore", "1_", "1_d/.", "1_d"} {
+	for _, nm := range []string{"1_foo_1.0_3.zip", "1_../x", "1_d/..", "1_..", "1_d/../..", "/etc/passwd", "/etc_/passwd", "1_/etc/passwd", "1_d/x", "1_nodir/x", "noscore", "1_", "1_d/.", "1_d",
+		"1_d/../../x", "1_/../../x", "1_d/../../snapshots_x", "1_d/../../../x", "1_d/../../../../../etc/passwd", "1_d/../../state.json", "a/../1_d/../../x", "1_d/x/../../../x"} {
 		ins = append(ins, c32In{Import: &c32Import{ID: 7, GarbageAfter: -1, Members: []c32Member{{Name: nm, Kind: "file", Body: "x"}, {Name: "export.json", Kind: "file"}}}})
 	}
 	// fixed restore corner cases: two entries, the second corrupted, pre-existing data everywhere
@@ -607,7 +608,7 @@ func c32Gen(r *vh.Rand, tier string, n int) []c32In {
 		}
 	}
 	for i := 0; i < n; i++ {
-		if i%2 == 0 {
+		if i%4 != 3 {
 			ins = append(ins, c32In{Import: c32GenImport(r)})
 		} else {
 			ins = append(ins, c32In{Restore: c32GenRestore(r)})
